@@ -23,6 +23,8 @@ fn label_of(kind: i64) -> Label {
                  5 => Label::ThreeBytesLabel([0, 0, 0]), _ => Label::SixBytesLabel([0; 6]) }
 }
 fn lbytes(l: &Label) -> Vec<u8> { match l { Label::SixBytesLabel(b) => b.to_vec(), Label::ThreeBytesLabel(b) => b.to_vec(), _ => vec![] } }
+/// structural comparison that does not go through the crate's own PartialEq for Label
+fn same_label(a: &Label, b: &Label) -> bool { lt_of(a) == lt_of(b) && lbytes(a) == lbytes(b) }
 fn lt_of(l: &Label) -> u8 { match l { Label::SixBytesLabel(_) => 0, Label::ThreeBytesLabel(_) => 1, Label::Broadcast => 2, Label::ReUse => 3 } }
 fn pdu_of(n: usize) -> Vec<u8> { (0..n).map(|i| (i * 7 + 3) as u8).collect() }
 fn enc() -> Encapsulator<DefaultCrc> { Encapsulator::new(DefaultCrc {}) }
@@ -560,32 +562,34 @@ fn g_ext_rt() -> Vec<P> {
 // 11. label policy histories, sender and receiver in lock step: [op, op, ...]
 //     op: 0..3 send label A(6B) / B(6B) / C(3B) / broadcast into a large buffer; 4 explicit re-use; 5 failing send of B (tiny buffer);
 //         6 reset both; 7 disable; 8 enable; 9 enable max 1; 10 enable max 2; 11 send A fragmented (first + end); 12 failing send of A via bad ptype
+//         13..15 send a label that differs from A in its first byte only / from A in its last byte only / from C in its first byte only
 fn s_policy(p: &P) -> Option<String> {
-    let labs = [Label::SixBytesLabel([1; 6]), Label::SixBytesLabel([2; 6]), Label::ThreeBytesLabel([3; 3]), Label::Broadcast, Label::ReUse];
+    let labs = [Label::SixBytesLabel([1; 6]), Label::SixBytesLabel([2; 6]), Label::ThreeBytesLabel([3; 3]), Label::Broadcast, Label::ReUse,
+                Label::SixBytesLabel([9, 1, 1, 1, 1, 1]), Label::SixBytesLabel([1, 1, 1, 1, 1, 9]), Label::ThreeBytesLabel([9, 3, 3])];
     let mut e = enc(); let mut d = dec(2, 64, 2);
     let (mut enabled, mut maxc, mut run) = (true, 0u32, 0u32);
     let mut prev: Option<Label> = None;       // label carried by the last start/complete packet of this frame
     for &op in p {
         match op {
-            0..=4 | 11 => {
-                let label = if op == 11 { labs[0] } else { labs[op as usize] };
+            0..=4 | 11 | 13..=15 => {
+                let label = match op { 11 => labs[0], 13..=15 => labs[op as usize - 8], _ => labs[op as usize] };
                 let pdu = pdu_of(20); let mut buf = vec![0u8; if op == 11 { 24 } else { 64 }];
                 let st = match no_panic(|| e.encap(&pdu, 1, EncapMetadata::new(0x0800, label), &mut buf)) { Ok(Ok(s)) => s, Ok(Err(er)) => return Some(format!("send refused: {:?}", er)), Err(_) => return Some("encap panicked".into()) };
                 let n = match st { EncapStatus::CompletedPkt(n) => n, EncapStatus::FragmentedPkt(n, _) => n } as usize;
                 let h = parse_hdr(&buf[..n])?;
-                let substituted = h.lt == 3 && label != Label::ReUse;
+                let substituted = h.lt == 3 && lt_of(&label) != 3;
                 if substituted {
                     if !enabled { return Some("label replaced by re-use while re-use is disabled".into()); }
-                    if prev != Some(label) { return Some(format!("re-use marker although the preceding start/complete packet carried {:?}", prev)); }
+                    if !prev.map_or(false, |q| same_label(&q, &label)) { return Some(format!("re-use marker although the preceding start/complete packet carried {:?}", prev)); }
                     run += 1; if maxc > 0 && run > maxc { return Some(format!("{run} consecutive re-use packets with a maximum of {maxc}")); }
                 } else if h.lt != 3 { run = 0; }
                 // receiver
                 let r = d.decap(&buf[..n]);
-                let expect = if label == Label::ReUse { prev } else { Some(label) };
+                let expect = if lt_of(&label) == 3 { prev } else { Some(label) };
                 match (&r, expect) {
-                    (Ok((DecapStatus::CompletedPkt(_, md), _)), Some(l)) | (Ok((DecapStatus::FragmentedPkt(md), _)), Some(l)) => if md.label() != l { return Some(format!("PDU sent with {:?} delivered with {:?}", l, md.label())); },
+                    (Ok((DecapStatus::CompletedPkt(_, md), _)), Some(l)) | (Ok((DecapStatus::FragmentedPkt(md), _)), Some(l)) => if !same_label(&md.label(), &l) { return Some(format!("PDU sent with {:?} delivered with {:?}", l, md.label())); },
                     (Ok(_), None) => return Some("explicit re-use delivered although no label precedes it".into()),
-                    (Err(_), Some(_)) if label != Label::ReUse => return Some(format!("PDU with label {:?} not delivered: {:?}", label, r.as_ref().err().map(|x| &x.0))),
+                    (Err(_), Some(_)) if lt_of(&label) != 3 => return Some(format!("PDU with label {:?} not delivered: {:?}", label, r.as_ref().err().map(|x| &x.0))),
                     _ => {}
                 }
                 if let Ok((DecapStatus::CompletedPkt(b, _), _)) = r { let _ = d.provision_storage(b); }
@@ -599,13 +603,14 @@ fn s_policy(p: &P) -> Option<String> {
             7 => { e.disable_re_use_label(); enabled = false; maxc = 0; run = 0; }
             8 => { e.enable_re_use_label(); enabled = true; maxc = 0; run = 0; }
             9 => { e.enable_re_use_label_with_max_consecutive(1); enabled = true; maxc = 1; run = 0; }
-            _ => { e.enable_re_use_label_with_max_consecutive(2); enabled = true; maxc = 2; run = 0; }
+            10 => { e.enable_re_use_label_with_max_consecutive(2); enabled = true; maxc = 2; run = 0; }
+            _ => {}
         }
     }
     None
 }
 fn g_policy() -> Vec<P> {
-    let ops: Vec<i64> = (0..13).collect();
+    let ops: Vec<i64> = (0..16).collect();
     let mut v = vec![];
     for &a in &ops { for &b in &ops { for &c in &ops { for &d in &ops { v.push(vec![a, b, c, d]); if a == 0 && (b == 0 || b >= 5) { for &x in &[0i64, 1, 4] { v.push(vec![a, b, c, d, x, 0]); } } } } } }
     for n in [254i64, 255] { let mut s = vec![100 + n]; for _ in 0..(n + 3) { s.push(0); } v.push(s); }
